@@ -116,6 +116,9 @@ def streams(ctx):
             names_by_uri = {}
             parked_now = set()
             live_tasks = {}      # uri -> number of unfinished tasks (approximation: parked names attributed at edit time)
+            owner = {}           # parked name -> the document whose task holds its claim
+            fetched_by = {}      # name -> the document whose task fetched it successfully
+            latest_names = {}    # uri -> names its latest text needs
             for i in range(a, m):
                 f = vlib.decode_line(cs[i]["req"]); o = impl[i]
                 if f[0] in ("l.open", "l.change"):
@@ -137,10 +140,15 @@ def streams(ctx):
                     for it in [x for x in pk.split(";") if x]:
                         names_needed.add("npm/" + it.split("|")[0])
                     names_by_uri.setdefault(uri, set()).update(names_needed)
-                    if names_needed & before:
-                        skipped_risk[uri] = True     # a package this revision needs is being fetched by another task: its own claim is refused
+                    latest_names[uri] = names_needed
+                    for nm in parked_now - before:
+                        owner[nm] = uri              # claimed by the task this edit spawned
                     live_tasks[uri] = len(parked_now - before)
                 elif f[0] in ("l.reply", "l.settle"):
+                    if f[0] == "l.reply" and o != "noparked" and f[3] == "ok":
+                        nm = "npm/" + vlib.hx(f[2])
+                        if nm in owner:
+                            fetched_by[nm] = owner[nm]
                     for part in o.split(" ; "):
                         if part.startswith("pub "):
                             last[part.split(" ")[1]] = part
@@ -157,9 +165,10 @@ def streams(ctx):
                     hu = want[0].split(" ")[1]
                     if last.get(hu) != want[0]:
                         why = (f"document {f[1]}: last published {last.get(hu)} but its latest text against the final cache gives {want[0]}")
-                        shared = any(names_by_uri.get(f[1], set()) & ns for u, ns in names_by_uri.items() if u != f[1])
-                        # F-C13-2 (open): this document needed a package another task was fetching; F-C13-1 (fixed): stale snapshot
-                        kid = "F-C13-2" if (skipped_risk.get(f[1]) or shared) else ("F-C13-1" if stale_risk.get(f[1]) else None)
+                        # F-C13-2 (open): a package this document's latest text needs was fetched by ANOTHER document's task, which
+                        # republishes only its own document; F-C13-1 (fixed): a task republished a stale revision of its own document
+                        other = any(fetched_by.get(nm) not in (None, f[1]) for nm in latest_names.get(f[1], set()))
+                        kid = "F-C13-2" if other else ("F-C13-1" if stale_risk.get(f[1]) else None)
                         der.append({"req": vlib.line("ml.settle"), "index": a, "history": [c["req"] for c in cs[a:b]],
                                     "check": (lambda out, kid=kid, why=why: ("known", kid) if kid else ("violation", why))})
         return der
